@@ -239,6 +239,8 @@ class IDToken(Token):
         _context = self.upstream_get("context")
 
         client_info = _context.cdb[client_id]
+        # like userinfo: a client that registered an encryption algorithm gets an encrypted ID Token
+        encrypt = encrypt or bool(client_info.get("id_token_encrypted_response_alg"))
         alg_dict = get_sign_and_encrypt_algorithms(
             _context, client_info, "id_token", sign=sign, encrypt=encrypt
         )
